@@ -242,10 +242,10 @@ func refundTokens(ctx *action.Context, tracker *trackerlib.Tracker, oltTx Report
 		return gov.ErrGetEthOptions
 	}
 	req, err := ethereum.ParseRedeem(tracker.SignedETHTx, ethOpt.ContractABI)
-	oEthRefundCoin := c.NewCoinFromAmount(*balance.NewAmountFromBigInt(req.Amount))
 	if err != nil {
 		return errors.Wrap(action.ErrInvalidExtTx, err.Error())
 	}
+	oEthRefundCoin := c.NewCoinFromAmount(*balance.NewAmountFromBigInt(req.Amount))
 	err = ctx.Balances.AddToAddress(tracker.ProcessOwner, oEthRefundCoin)
 	if err != nil {
 		ctx.Logger.Error(err)
